@@ -54,12 +54,12 @@ theorem panicSites_tie : Generated.panicSites =
    "parser.go:rewriteCompundAssingment", "value.go:NewValue"] := by decide
 
 /-- every `range` over a Go map (iteration order is random), found with go/types: the two
-    match-binding maps and NewValue's JSON object (each only inserts into another map),
-    sortedKeys (sorts afterwards) and toGoValueInterval (fills another map).  None of them
-    prints, evaluates user code or builds an ordered result. -/
+    match-binding maps and NewValue's JSON object (each only inserts into another map, no early
+    exit, no output) and sortedKeys (collects the keys and sorts them).  Everything else that
+    walks an object goes through sortedKeys. -/
 theorem mapRanges_tie : Generated.mapRangeSites =
     ["evaluator.go:evalArrayCaseMatch:newBindings", "evaluator.go:evalExpr:bindings",
-     "value.go:NewValue:val", "value.go:sortedKeys:*v.Obj", "value.go:toGoValueInterval:*v.Obj"] := by decide
+     "value.go:NewValue:val", "value.go:sortedKeys:*v.Obj"] := by decide
 
 /-- package-level mutable state: limits, sentinel errors and the lazily built prototype tables -/
 theorem packageVars_tie : Generated.packageVars =
